@@ -88,6 +88,10 @@ func (c *Channel) read() {
 				"encountered error reading from transport during channel read loop. error: %s", err,
 			)
 
+			// remember it too: Errs hands the error to one reader only, and until the next read
+			// attempt (a read delay away) everyone else would find the connection looking healthy
+			c.readErr.Store(&err)
+
 			simhook.Yield("chan.read.errsend")
 
 			select {
@@ -102,6 +106,8 @@ func (c *Channel) read() {
 
 			continue
 		}
+
+		c.readErr.Store(nil)
 
 		if len(b) == 0 {
 			// nothing to process... no reason to enqueue empty bytes, sleep and then continue...
@@ -149,6 +155,10 @@ func (c *Channel) Read() ([]byte, error) {
 		return nil, util.ErrConnectionError
 	}
 
+	if err := c.readErr.Load(); err != nil {
+		return nil, *err
+	}
+
 	b := c.Q.Dequeue()
 
 	if b == nil {
@@ -172,6 +182,10 @@ func (c *Channel) ReadAll() ([]byte, error) {
 	case err := <-c.Errs:
 		return nil, err
 	default:
+	}
+
+	if err := c.readErr.Load(); err != nil {
+		return nil, *err
 	}
 
 	b := c.Q.DequeueAll()
